@@ -25,6 +25,12 @@ def run(repo, run, tier):
     richardson_retry(repo, run)
     recorded_pairing(repo, run)
     nan_rejection(repo, run)
+    # 'the error of every recorded state is bounded by the tolerances': every row of the record is an integrator result (y + dState of an accepted step).  The only
+    # other row writes, the re-commit after the event search, restore exactly the committed row: a state read from the cubic Hermite interpolant carries its O(h^4)
+    # error, which no tolerance controls (1e-6..1e-3 for the long steps of the high-order pairs)
+    from .c03 import restore
+    from ..imodel import IntegrateModel
+    restore(repo, run, IntegrateModel(repo), rule_id="C05.13")
     # 'run with tolerances (rtol, atol)': tolerances changed through the system's setters must reach every copy the integrators keep
     from .c13 import settings_reach_integrator
     from ..access import ClassModel
